@@ -23,14 +23,42 @@ func init() {
 		Technique: "exhaustive enumeration of all token concatenations up to a length bound, each run on the real ParseParameters (and through Parse+Describe on a live server) against an independent scanner",
 		Rule: "all concatenations of <= N tokens from " + fmt.Sprintf("%q", c20Tokens) + "; a case is non-trivial when it contains at least one marker; distinct = distinct query strings. " +
 			"Oracle: no panic, len <= 65535, bounded allocation, all OIDs 0, pure $n => highest index, pure ? => number of markers, Describe announces that length",
-		Assumptions: []string{"length for a highest index > 65535 and for queries mixing $n with ? is not asserted (only totality and the 65535 bound)"},
+		Assumptions: []string{"length for a highest index > 65535, for more than 65535 ? markers and for queries mixing $n with ? is not asserted (only totality and the 65535 bound)", "allocation bound per call: 8 MiB + 1 KiB per byte of query text (scanning is linear in the text; nothing may depend on the value of an index)"},
 		Enumerate:   c20Enumerate,
 		Bounds: func(tier string) map[string]any {
 			d, s := c20Depth(tier)
-			return map[string]any{"tokens": len(c20Tokens), "max_tokens_direct": d, "max_tokens_session": s}
+			return map[string]any{"tokens": len(c20Tokens), "max_tokens_direct": d, "max_tokens_session": s, "long_queries": len(c20LongSpecs(tier)), "redefine": "every first text of <= max_tokens_session tokens x every second text of <= 1 token x {unnamed, named}"}
 		},
 		RequiredOutcomes: []string{"positional", "anonymous", "mixed", "none", "beyond-limit"},
 	})
+}
+
+// c20Long are structured long queries: a block repeated many times (so that the number of MARKERS, not the
+// highest index, crosses the protocol limit) with a tail that introduces a new highest index afterwards.
+type c20LongSpec struct {
+	block string
+	times int
+	tail  string
+}
+
+func c20LongSpecs(tier string) []c20LongSpec {
+	blocks := []string{"($1, $2),", "$1 ", "?,", "$2$1", "$70000 ", "x"}
+	times := []int{1, 32767, 32768, 65534, 65535, 65536, 70000}
+	tails := []string{"", "$3", "($1, $3)", "?", "$65535", "$65536"}
+	if tier == "thorough" {
+		times = append(times, 2, 255, 256, 4095, 4096, 16383, 16384, 131072, 200000)
+		tails = append(tails, "$4 $3", "$0", "$")
+		blocks = append(blocks, "$3,$2,$1;", "$65535,", "??")
+	}
+	var out []c20LongSpec
+	for _, b := range blocks {
+		for _, n := range times {
+			for _, t := range tails {
+				out = append(out, c20LongSpec{b, n, t})
+			}
+		}
+	}
+	return out
 }
 
 func c20Depth(tier string) (int, int) {
@@ -79,7 +107,7 @@ func c20Model(q string) (maxPos int, marks int, positional int, huge bool) {
 func c20Judge(res *explore.Result, q string) (n int, ok bool) {
 	maxPos, marks, positional, huge := c20Model(q)
 	switch {
-	case huge:
+	case huge || marks > 65535:
 		res.Outcome = "beyond-limit"
 	case positional > 0 && marks > 0:
 		res.Outcome = "mixed"
@@ -93,7 +121,7 @@ func c20Judge(res *explore.Result, q string) (n int, ok bool) {
 	if positional+marks > 0 {
 		res.Key = q
 	}
-	measure := huge || maxPos >= 1000
+	measure := huge || maxPos >= 1000 || len(q) > 4096
 	var before runtime.MemStats
 	if measure {
 		runtime.ReadMemStats(&before)
@@ -119,8 +147,9 @@ func c20Judge(res *explore.Result, q string) (n int, ok bool) {
 	if measure {
 		var after runtime.MemStats
 		runtime.ReadMemStats(&after)
-		if d := after.TotalAlloc - before.TotalAlloc; d > 8<<20 {
-			res.Fail("unbounded-work", fmt.Sprintf("ParseParameters(%q) allocated %d bytes (> 8 MiB) for one call", q, d))
+		// scanning the text is proportional to its length; nothing may be proportional to the VALUE of an index
+		if d := after.TotalAlloc - before.TotalAlloc; d > 8<<20+1024*uint64(len(q)) {
+			res.Fail("unbounded-work", fmt.Sprintf("ParseParameters(%q) allocated %d bytes (> 8 MiB + 1 KiB per byte of input) for one call", q, d))
 		}
 	}
 	if len(out) > 65535 {
@@ -149,6 +178,13 @@ func c20Judge(res *explore.Result, q string) (n int, ok bool) {
 	return len(out), true
 }
 
+// c20Parse is the documented way of using the helper: on client-controlled text inside the parse callback.
+func c20Parse(ctx context.Context, query string) (wire.PreparedStatements, error) {
+	return wire.Prepared(wire.NewStatement(func(ctx context.Context, w wire.DataWriter, p []wire.Parameter) error {
+		return w.Complete("OK")
+	}, wire.WithParameters(wire.ParseParameters(query)))), nil
+}
+
 func forTokenStrings(tokens []string, depth int, f func(parts []int)) {
 	forShapes(len(tokens), depth, f)
 }
@@ -170,6 +206,77 @@ func c20Enumerate(tier string, emit explore.Emit) {
 			c20Judge(&res, q)
 			return res
 		}})
+	})
+	for _, sp := range c20LongSpecs(tier) {
+		sp := sp
+		emit(explore.Case{Family: "long", Size: 10 + len(sp.tail), Desc: func() any {
+			return map[string]any{"block": sp.block, "times": sp.times, "tail": sp.tail, "query": "strings.Repeat(block, times) + tail"}
+		}, Run: func() explore.Result {
+			var res explore.Result
+			c20Judge(&res, strings.Repeat(sp.block, sp.times)+sp.tail)
+			if len(res.Key) > 64 {
+				res.Key = fmt.Sprintf("%q*%d+%q", sp.block, sp.times, sp.tail)
+			}
+			for i := range res.Violations {
+				if len(res.Violations[i].Detail) > 400 {
+					res.Violations[i].Detail = fmt.Sprintf("ParseParameters(strings.Repeat(%q, %d)+%q): ", sp.block, sp.times, sp.tail) + res.Violations[i].Detail[len(res.Violations[i].Detail)-160:]
+				}
+			}
+			return res
+		}})
+	}
+	// a statement name defined more than once on one connection: Describe announces the count of the LATEST
+	// definition (state left behind by the earlier one must not show)
+	forTokenStrings(c20Tokens, sdepth, func(first []int) {
+		if len(first) == 0 {
+			return
+		}
+		forTokenStrings(c20Tokens, 1, func(second []int) {
+			q1, q2 := "select "+mk(first), "select "+mk(second)
+			n := len(first) + len(second)
+			for _, name := range []string{"", "s"} {
+				name := name
+				emit(explore.Case{Family: "redefine", Size: n, Desc: func() any {
+					return map[string]any{"statement": name, "first": q1, "second": q2, "via": "Parse, Parse (same name), Describe(S)"}
+				}, Run: func() explore.Result {
+					var res explore.Result
+					var r1 explore.Result
+					if _, ok := c20Judge(&r1, q1); !ok {
+						return r1
+					}
+					want, ok := c20Judge(&res, q2)
+					if !ok {
+						return res
+					}
+					res.Key = q1 + "\x00" + q2
+					one, err := harness.StartOne(c20Parse, wire.MessageBufferSize(1<<20))
+					if err != nil {
+						res.Engine = err.Error()
+						return res
+					}
+					one.Step(pgproto.Startup("user", "u"))
+					out, _ := one.Step(pgproto.Cat(pgproto.Parse(name, q1), pgproto.Describe('S', name), pgproto.Parse(name, q2), pgproto.Describe('S', name), pgproto.Sync()))
+					one.Stop()
+					ms, err := pgproto.ParseBackend(out)
+					if err != nil {
+						res.Fail("describe-grammar", err.Error())
+						return res
+					}
+					var t *pgproto.BMsg
+					for i := range ms {
+						if ms[i].Type == 't' {
+							t = &ms[i]
+						}
+					}
+					if t == nil {
+						res.Fail("describe-missing", "no ParameterDescription in reply "+pgproto.Kinds(ms))
+					} else if len(t.OIDs) != want {
+						res.Fail("describe-count", fmt.Sprintf("statement %q redefined from %q to %q: ParseParameters reported %d placeholders for the new text, Describe announced %d", name, q1, q2, want, len(t.OIDs)))
+					}
+					return res
+				}})
+			}
+		})
 	})
 	forTokenStrings(c20Tokens, sdepth, func(parts []int) {
 		q := "select " + mk(parts)
